@@ -108,6 +108,10 @@ class Producer:
 
         Returns a list of all possible mutations as ``Task`` objects.
         """
+        if smtlib.has_comment_operand(linput):
+            # no mutator takes a comment for an operand: the node has to wait
+            # until the comment itself (a leaf) has been erased
+            return
         for m in self.__mutators:
             if self.__abort.is_set():
                 break
